@@ -137,6 +137,39 @@ Lemma constraint_keys_distinct_b_spec : forall g,
   constraint_keys_distinct_b g = true <-> constraint_keys_distinct g.
 Proof. intros. apply pairwise_distinct_spec. Qed.
 
+Lemma subkeys_distinct_b_spec : forall g, subkeys_distinct_b g = true <-> subkeys_distinct g.
+Proof. intros. apply pairwise_distinct_spec. Qed.
+
+(* equal Assignment keys have equal sub-keys ... *)
+Lemma accs_eqb_ports : forall a b, accs_eqb a b = true -> idents_eqb (acc_ports a) (acc_ports b) = true.
+Proof.
+  induction a as [|x a IH]; intros [|y b] H; simpl in *; try discriminate; [reflexivity|].
+  apply andb_true_iff in H. destruct H as [Hxy Hab].
+  destruct x as [ex|nx], y as [ey|ny]; simpl in Hxy; try discriminate.
+  - now apply IH.
+  - simpl. rewrite Hxy. now apply IH.
+Qed.
+
+Lemma assignment_eqb_subkey : forall a b, assignment_eqb a b = true -> subkey_eqb a b = true.
+Proof.
+  intros a b H. unfold assignment_eqb in H. unfold subkey_eqb.
+  apply andb_true_iff in H. destruct H as [H Hd].
+  apply andb_true_iff in H. destruct H as [H Ha].
+  apply andb_true_iff in H. destruct H as [Hm Hv].
+  unfold vname_eqb in Hv.
+  apply andb_true_iff in Hv. destruct Hv as [Hv _].
+  apply andb_true_iff in Hv. destruct Hv as [Hn _].
+  rewrite Hm, Hn. simpl. now apply accs_eqb_ports.
+Qed.
+
+(* ... so distinct sub-keys are distinct keys *)
+Lemma subkeys_distinct_suffice : forall g, subkeys_distinct g -> keys_distinct g.
+Proof.
+  intros g H i j a b Hij Hi Hj.
+  destruct (assignment_eqb a b) eqn:E; [|reflexivity].
+  apply assignment_eqb_subkey in E. rewrite (H i j a b Hij Hi Hj) in E. discriminate.
+Qed.
+
 Lemma filter_map_app : forall A B (f : A -> option B) l l',
   filter_map f (l ++ l') = filter_map f l ++ filter_map f l'.
 Proof.
